@@ -67,7 +67,7 @@ func runMutants(root string, ms []Mutant, claims Claims, known []KnownFinding, d
 			}
 			sub := filepath.Join(dir, "mut-"+m.ID)
 			os.MkdirAll(sub, 0o755)
-			out := runProperty(p, m.Property, claims.Properties[m.Property], known, sub, 30, false)
+			out := runProperty(p, m.Property, claims.Properties[m.Property], known, sub, 60, false)
 			failed = len(out.violations) > 0
 			if failed {
 				// prefer a violation the solver decided over one it merely timed out on
